@@ -4,4 +4,5 @@ CONSTANTS
  Cap = 2
  Ops <- OpsN
  NestedOps <- NestedN
+ SrqOps <- SrqS
 CHECK_DEADLOCK FALSE
